@@ -45,6 +45,13 @@ def gen_cases(rng, tier):
         model["tab"]["cutoff"] = float(rng.randint(1, 20))
       if i % 5 in (1, 2, 3):
         model["api_results"] = [None, "numpy0d", "numpy0d_int", "numpy0d_cached"][i % 5]   # functions returning 0-d numpy arrays (fresh / integer-typed / memoised)
+    if i % 9 == 4 and not route.startswith("api"):
+      # a formula that rescales one of its own parameters ('rho := rho*0.529177; ...'): every row starts from the parameter
+      # as written in the file
+      model["forms"] = list(model.get("forms") or []) + [
+        {"name": "selfscale", "params": ["r", "A", "rho"], "breaks": [],
+         "expr": ["assign_then", "rho", ["*", ["var", "rho"], ["num", 0.529177]], ["*", ["var", "A"], ["call", "exp", [["neg", ["/", ["var", "r"], ["var", "rho"]]]]]]]}]
+      model["pair"][-1][-1] = {"k": "custom", "name": "selfscale", "args": [spec.rfloat(rng, 5.0, 500.0, 2), spec.rfloat(rng, 0.5, 1.5, 3)]}
     cases.append({"route": route, "model": model, "style": rng.randrange(1 << 30)})
   # energy exactly 0 at a grid row where the slope is not (root on the grid)
   for i in range(20 if tier == "quick" else 120):
